@@ -57,6 +57,10 @@ def _color(idx, alpha, palette):
     return (c.red, c.green, c.blue, (c.alpha / 255.0) * alpha)
 
 
+# which CPAL palette the flattening reads (a text engine's palette selection); [0] unless a check says otherwise
+PALETTE_INDEX = [0]
+
+
 class Fill:
     """A fill = paint leaf + the transform that places it (matrix maps fill space -> glyph/font space)."""
 
@@ -152,7 +156,7 @@ class Layer:
 def flatten_v1(font, base_glyph):
     """COLRv1 base glyph -> [Layer] bottom-up."""
     colr = font["COLR"].table
-    palette = font["CPAL"].palettes[0]
+    palette = font["CPAL"].palettes[PALETTE_INDEX[0]]
     recs = {r.BaseGlyph: r.Paint for r in colr.BaseGlyphList.BaseGlyphPaintRecord} if colr.BaseGlyphList else {}
     layer_list = colr.LayerList.Paint if colr.LayerList else []
     out = []
@@ -205,7 +209,7 @@ def flatten_v1(font, base_glyph):
 
 def flatten_v0(font, base_glyph):
     colr = font["COLR"]
-    palette = font["CPAL"].palettes[0]
+    palette = font["CPAL"].palettes[PALETTE_INDEX[0]]
     out = []
     for layer in colr.ColorLayers.get(base_glyph, []):
         out.append(Layer([(layer.name, G.IDENT)], Fill("solid", G.IDENT, color=_color(layer.colorID, 1.0, palette)), ()))
